@@ -1,7 +1,43 @@
-"""per-property level / explanation / assumptions written into the evidence (kept in sync with MANIFEST.json)"""
-META = {
-  'C18': dict(level='proof',
-              explanation='symbolic execution of every public constructor through its MRO with opaque arguments; z3 decides the round-trip, alias and frame clauses',
-              assumptions=['get_params/set_params/clone are scikit-learn BaseEstimator introspection (assumed): they work iff every constructor parameter is stored under its own name, which is the clause proved',
-                           'pickle is CPython (not verified)']),
-}
+"""per-property level / technique / notes: single source for MANIFEST.json (tools/gen_manifest.py) and the evidence files"""
+
+TECH = 'contract-based deductive verification: VCs generated from the ast of the real functions against sidecar contracts, discharged by z3'
+
+META = {}
+CLAIMED = []
+NOT_YET = {}
+
+
+def claim(pid, level, level_text, level_note, explanation, assumptions, technique=TECH):
+  META[pid] = dict(level=level, level_text=level_text, level_note=level_note, explanation=explanation,
+                   assumptions=assumptions, technique=technique)
+  CLAIMED.append(pid)
+
+
+claim('C01', 'proof',
+      'pair_distance, pair_score and the get_metric closure are executed symbolically from the real source; z3 proves result[i] = d_L(p_i0, p_i1) = ||L(p_i0 - p_i1)|| '
+      'for every fitted state and every pair batch, the pseudo-metric laws follow from contracts + metric axioms (Lean theorems), and d(x,y)=d(y,x), d(x,x)=0 are proved '
+      'exactly over the extracted terms with only sign-symmetry identities that hold in binary64. Finiteness and rounding slack are bounded (run-time contract on the real observers).',
+      'trusted: npvc encoder; z3; A-real (floats as reals) except the exact-identity obligations, which assume sign-symmetric BLAS kernels; assumed contracts of numpy dot/sum/sqrt and '
+      'scikit-learn check_array; metric axioms are Lean/Mathlib theorems transcribed by hand into SMT; fitted state = any (k,d) real matrix (that fit produces one is C03)',
+      'symbolic execution of the observers + property lemmas over contracts; bounded stand-in for finiteness',
+      ['A-real: finiteness and the rounding slack of the triangle inequality are outside the real model (bounded stand-in only)',
+       'BLAS matrix products are sign-symmetric (used only by the exact-identity obligations)'])
+claim('C02', 'proof',
+      'every observer (transform, pair_distance, get_metric plain/squared, get_mahalanobis_matrix, score_pairs) is proved from its real body to denote X L^T, d_L, d_L^2 = (x-y)^T M (x-y), '
+      'M = L^T L (symmetric PSD); the lemma "all views agree" is proved from the contracts only.',
+      'trusted: as C01; array-like -> ndarray conversion is scikit-learn check_array (assumed: same numbers); index+preprocessor equivalence is carried by the validator contracts of C05/C06',
+      'symbolic execution of all observers + agreement lemma', [])
+claim('C06', 'proof',
+      'total case analysis of the real validators (check_input, check_input_tuples, check_input_classic, check_tuple_size, make_error_input, check_y_valid_values_for_pairs) over an array '
+      'descriptor with symbolic rank and dims: every path ends in a formed array of the documented rank / tuple size / minimum size, in ValueError, or in PreprocessorError when a preprocessor was consulted; '
+      'call well-formedness of every scikit-learn call against the installed signature. Relative to the assumed scikit-learn validator contracts (NaN/inf/dtype/length). '
+      'The enumerated malformation grammar of the property is run against the real methods as a bounded stand-in.',
+      'trusted: npvc encoder; z3; assumed contracts of check_array / check_X_y (listed in evidence); user preprocessors return arrays of rank <= 3; known finding F15 (0-d data with labels -> TypeError from scikit-learn)',
+      'total case analysis over input descriptors; call well-formedness; bounded grammar on the real methods',
+      ['NaN/inf, dtype and length checks are scikit-learn check_array/check_X_y behaviour (assumed contract)'])
+claim('C18', 'proof',
+      'every public constructor is executed symbolically through its MRO with opaque arguments; z3 proves self.p is p for every non-deprecated parameter, alias -> replacement + FutureWarning, '
+      'and that nothing but parameters is assigned. The NotFittedError guard is the `unfitted` case of every query-method contract (C01/C02/C04 units).',
+      'trusted: npvc encoder; z3; get_params/set_params/clone are scikit-learn BaseEstimator introspection (assumed; they work iff every parameter is stored under its own name, the clause proved); pickle is CPython (bounded only)',
+      'symbolic execution of the constructors with opaque (identity-only) arguments',
+      ['get_params/set_params/clone are scikit-learn BaseEstimator introspection (assumed)', 'pickle is CPython (not verified)'])
